@@ -102,4 +102,52 @@ abbrev i64le (a b : Nat) : Bool := decide (i64toInt a ≤ i64toInt b)
 abbrev i64gt (a b : Nat) : Bool := decide (i64toInt b < i64toInt a)
 abbrev i64ge (a b : Nat) : Bool := decide (i64toInt b ≤ i64toInt a)
 
+/-! ### typed mode v3: Go `int` division, slices of words, the float64 margin quotient -/
+
+/-- the two's-complement word of an integer (reduction modulo `2^64`). -/
+def i64ofInt (z : Int) : Nat := (z % 18446744073709551616).toNat
+
+/-- Go `a / b` on `int`: truncated (toward zero) division, exact for ALL operands (`MinInt64 / -1`
+    wraps to `MinInt64` as in Go); `b = 0` is a run-time panic in Go: outside the model. -/
+def i64div (a b : Nat) : Nat := i64ofInt (Int.tdiv (i64toInt a) (i64toInt b))
+/-- Go `a % b` on `int`: the remainder of the truncated division (sign of the dividend). -/
+def i64mod (a b : Nat) : Nat := i64ofInt (Int.tmod (i64toInt a) (i64toInt b))
+/-- Go `a / b` on uint64 (`b = 0` panics in Go: outside the model). -/
+def u64div (a b : Nat) : Nat := a / b
+
+/-- Go `len(xs)` as an `int` (a length is far below `2^63`). -/
+def sliceLen (xs : List Nat) : Nat := xs.length
+/-- Go `xs[:k]` (`k` the word of a non-negative `int`).  `k > cap(xs)` panics in Go, and
+    `len(xs) < k ≤ cap(xs)` re-slices into the capacity: both outside the model, which needs `k ≤ len(xs)`. -/
+def sliceTake (xs : List Nat) (k : Nat) : List Nat := xs.take k
+/-- Go `xs[i]` (`i ≥ len(xs)` or negative panics in Go: outside the model). -/
+def sliceAt (xs : List Nat) (i : Nat) : Nat := xs.getD i 0
+/-- Go `make([]T, n)`: `n` zero words. -/
+def sliceMake (n : Nat) : List Nat := List.replicate n 0
+/-- Go `slices.Max(xs)` on `[]uint64` (the empty slice panics in Go: outside the model). -/
+def slicesMax (xs : List Nat) : Nat := xs.foldl max 0
+
+/-- Go `float64(n)` for a `uint64` `n`, as the (integer) VALUE of the resulting float: IEEE-754
+    binary64, round to nearest, ties to even (53-bit significand; exact below `2^53`). -/
+def f64ofU64 (n : Nat) : Nat :=
+  if n < 9007199254740992 then n
+  else
+    let s := Nat.log2 n - 52
+    let m := n / 2 ^ s
+    let r := n % 2 ^ s
+    let m' := if 2 ^ s < 2 * r ∨ (2 * r = 2 ^ s ∧ m % 2 = 1) then m + 1 else m
+    m' * 2 ^ s
+
+/-- Go `int(x / y)` for float64 `x`, `y` whose values are the positive integers `a ≥ b`:
+    the IEEE-754 binary64 quotient (a normal number in `[1, 2^64]`, rounded to nearest, ties to even,
+    53-bit significand: `m'·2^(e-52)` with `e = ⌊log2 (a/b)⌋`) followed by Go's truncating
+    float→int conversion.  A result `≥ 2^63` is implementation-defined in Go: outside the model. -/
+def f64quoToInt (a b : Nat) : Nat :=
+  let e := Nat.log2 (a / b)
+  let d := b * 2 ^ e
+  let m := a * 4503599627370496 / d
+  let r := a * 4503599627370496 % d
+  let m' := if d < 2 * r ∨ (2 * r = d ∧ m % 2 = 1) then m + 1 else m
+  m' * 2 ^ e / 4503599627370496
+
 end Lattigo
